@@ -155,6 +155,7 @@ func (p *plugin) OnOpenMessage(_ bgp.PeerConfig, id netip.Addr, caps []bgp.Capab
 
 func (p *plugin) OnEstablished(_ bgp.PeerConfig, w bgp.UpdateMessageWriter) bgp.UpdateMessageHandler {
 	p.log("OnEstablished", "enter", "")
+	p.nUpdate.Store(0)
 	p.run.mu.Lock()
 	p.run.writer = w
 	p.run.writers = append(p.run.writers, w)
